@@ -1,4 +1,12 @@
 import PrioModel.Poly
+import PrioProofs.NttDft
+import PrioProofs.NttInv
+import PrioProofs.Lagrange
+import PrioProofs.LagrangeOps
+import PrioProofs.Extend
+import PrioModel.Field
+import Mathlib.Data.ZMod.Basic
+import Mathlib.Tactic.IntervalCases
 import Mathlib.Algebra.BigOperators.Group.List.Basic
 import Mathlib.Algebra.BigOperators.Group.Finset.Basic
 import Mathlib.Tactic.Ring
@@ -181,20 +189,183 @@ theorem polyEvalMonomial_spec (poly : List R) (x : R) :
       List.sum_cons, List.sum_nil, List.length_reverse, zero_add, add_zero]
     ring
 
-/-! ## stated, to be proved: the transforms equal the DFT -/
+/-! ## the transform equals the DFT -/
 
-/-- the direct DFT of a coefficient vector padded with zeros to length `n`, at the points `s·ωⁱ` -/
-def dftDirect {K : Type} [Field K] (ω s : K) (n : Nat) (coeffs : List K) : List K :=
-  (List.range n).map fun i => polyEvalMonomial (coeffs ++ List.replicate (n - coeffs.length) 0) (s * ω ^ i)
+/-- **the forward transform is the discrete Fourier transform** (proved in `PrioProofs/NttDft.lean`
+    by an invariant over the butterfly levels): for every commutative ring, every table of roots with
+    `ω 1 = -1` and `ω l ² = ω (l-1)` (what `rootsOk`, C09, establishes for the tables of src/fp.rs),
+    every size `2^d ≤ 2^20` (`2^19` for the shifted transform), every input and every sufficiently
+    long output buffer, `ntt_internal` succeeds and output `k` is `Σ_t inp[t]·(σ_d·ω_d^k)^t` — the
+    input polynomial evaluated at the `k`-th point — where `σ_d = ω (d+1)` for `set_s` and 1 otherwise -/
+theorem ntt_is_dft {F : Type} [CommRing F] {ω : Nat → F} (root : Nat → Option F) (setS : Bool)
+    (d outLen : Nat) (h : Roots ω (if setS then d + 1 else d)) (outp inp : Array F) (hd : d ≤ maxRoots) (hds : setS = true → d ≤ maxRoots - 1)
+    (hol : 2 ^ d ≤ outLen) (hop : 2 ^ d ≤ outp.size)
+    (hr : RootsAvail root ω (if setS then d + 1 else d)) (hne : d = 0 → inp.size ≠ 0) :
+    ∃ a, nttInternal root outLen outp inp (2 ^ d) setS = .ok a ∧ a.size = outp.size ∧
+      ∀ k, k < 2 ^ d → a.getD k 0 =
+        Finset.sum (Finset.range (2 ^ d)) fun t => inp.getD t 0 * (sigma ω setS d * ω d ^ k) ^ t :=
+  ntt_eq_dft root setS d outLen h outp inp hd hds hol hop hr hne
 
-/-- full-strength statement of the forward transform (all sizes 2^d ≤ 2^20, any field in which
-    `root l` is a primitive 2^l-th root of unity with `root(l)^2 = root(l-1)`) -/
-def ntt_eq_dft_statement : Prop :=
-  ∀ (K : Type) [Field K] (root : Nat → Option K) (d : Nat) (ω : K) (inp : List K),
-    d ≤ 20 → root d = some ω → (∀ l, l ≤ d → ∃ r, root l = some r ∧ (l ≥ 1 → ∃ r', root (l - 1) = some r' ∧ r * r = r')) →
-    inp.length ≤ 2 ^ d → inp ≠ [] →
-    (match nttInternal root (2 ^ d) (Array.replicate (2 ^ d) 0) inp.toArray (2 ^ d) false with
-     | .ok a => a.toList = dftDirect ω 1 (2 ^ d) inp
-     | _ => False)
+/-- the transform is linear in its input: the transform of a sum is the sum of the transforms -/
+theorem ntt_linear {F : Type} [CommRing F] {ω : Nat → F} (root : Nat → Option F) (setS : Bool)
+    (d : Nat) (h : Roots ω (if setS then d + 1 else d)) (x y z : Array F) (hd : d ≤ maxRoots) (hds : setS = true → d ≤ maxRoots - 1)
+    (hr : RootsAvail root ω (if setS then d + 1 else d))
+    (hx : x.size ≠ 0) (hy : y.size ≠ 0) (hz : z.size ≠ 0)
+    (hsum : ∀ t, t < 2 ^ d → z.getD t 0 = x.getD t 0 + y.getD t 0) :
+    ∃ a b c, nttInternal root (2 ^ d) (Array.replicate (2 ^ d) 0) x (2 ^ d) setS = .ok a ∧
+      nttInternal root (2 ^ d) (Array.replicate (2 ^ d) 0) y (2 ^ d) setS = .ok b ∧
+      nttInternal root (2 ^ d) (Array.replicate (2 ^ d) 0) z (2 ^ d) setS = .ok c ∧
+      ∀ k, k < 2 ^ d → c.getD k 0 = a.getD k 0 + b.getD k 0 := by
+  have hsz : 2 ^ d ≤ (Array.replicate (2 ^ d) (0 : F)).size := by simp
+  obtain ⟨a, ea, _, fa⟩ := ntt_eq_dft root setS d (2 ^ d) h _ x hd hds (le_refl _) hsz hr (fun _ => hx)
+  obtain ⟨b, eb, _, fb⟩ := ntt_eq_dft root setS d (2 ^ d) h _ y hd hds (le_refl _) hsz hr (fun _ => hy)
+  obtain ⟨c, ec, _, fc⟩ := ntt_eq_dft root setS d (2 ^ d) h _ z hd hds (le_refl _) hsz hr (fun _ => hz)
+  refine ⟨a, b, c, ea, eb, ec, ?_⟩
+  intro k hk
+  rw [fa k hk, fb k hk, fc k hk, ← Finset.sum_add_distrib]
+  apply Finset.sum_congr rfl
+  intro t ht
+  rw [hsum t (Finset.mem_range.mp ht)]
+  ring
+
+/-- non-vacuity: a field with a table of roots meeting the hypotheses — `ZMod 17`, where 3 has order
+    16, so `ω l = 3^(2^(4-l))` is a `2^l`-th root for `l ≤ 4` (transforms up to size 16, shifted up to 8) -/
+example : Roots (fun l : Nat => (3 : ZMod 17) ^ (2 ^ (4 - l))) 4 := by
+  refine ⟨by decide, ?_⟩
+  intro l h1 h2
+  interval_cases l <;> decide
+
+/-! ### the tables of src/fp.rs meet the hypotheses -/
+
+section tables
+open Gen
+
+/-- value (out of Montgomery form) of the `l`-th tabulated root -/
+def rootVal (P : FpParams) (l : Nat) : Nat := P.residue (P.roots.getD l 0)
+
+/-- `ROOTS[1]` is `-1` and every tabulated root is the square of the next one, as integers mod `p` -/
+def rootChain (P : FpParams) : Bool :=
+  rootVal P 1 + 1 == P.prime &&
+  (List.range (min MAX_ROOTS P.numRoots)).all fun i => rootVal P (i + 1) * rootVal P (i + 1) % P.prime == rootVal P i
+
+theorem FP32_chain : rootChain FP32 = true := by decide +kernel
+theorem FP64_chain : rootChain FP64 = true := by decide +kernel
+theorem FP128_chain : rootChain FP128 = true := by decide +kernel
+
+/-- the table of a field, read in `ZMod p`, is a table of roots in the sense of `ntt_is_dft`, up to
+    `min(MAX_ROOTS, NUM_ROOTS)` = 20 levels: the theorem applies to the deployed fields as they are -/
+theorem table_roots (P : FpParams) (hp : 2 ≤ P.prime) (h : rootChain P = true) :
+    Roots (fun l => ((rootVal P l : Nat) : ZMod P.prime)) (min MAX_ROOTS P.numRoots) := by
+  unfold rootChain at h
+  simp only [Bool.and_eq_true, beq_iff_eq, List.all_eq_true, List.mem_range] at h
+  obtain ⟨h1, h2⟩ := h
+  haveI : NeZero P.prime := ⟨by omega⟩
+  refine ⟨?_, ?_⟩
+  · have : ((rootVal P 1 + 1 : Nat) : ZMod P.prime) = 0 := by rw [h1]; exact ZMod.natCast_self _
+    push_cast at this
+    exact eq_neg_of_add_eq_zero_left this
+  · intro l hl1 hl2
+    obtain ⟨i, rfl⟩ : ∃ i, l = i + 1 := ⟨l - 1, by omega⟩
+    have := h2 i (by omega)
+    simp only [Nat.add_sub_cancel]
+    rw [← this, ZMod.natCast_mod, Nat.cast_mul]
+
+example : Roots (fun l => ((rootVal FP64 l : Nat) : ZMod FP64.prime)) 20 :=
+  table_roots FP64 (by decide) FP64_chain
+
+end tables
+
+/-! ## the inverse transform and the Lagrange-basis routines (proved in `PrioProofs/NttInv.lean`,
+    `Lagrange.lean`, `LagrangeOps.lean`, `Extend.lean`)
+
+Polynomials are given by a coefficient function `coef : ℕ → F` and a length bound; the nodes of the
+size-`2^d` domain are `ω d ^ i`.  All statements are for every field with `2 ≠ 0`, every table of roots
+satisfying the root chain, every size within the table and every input. -/
+
+section lagrange
+open Finset BigOperators
+variable {F : Type} [Field F]
+
+/-- **inverse transform = interpolation**: `ntt_inv` succeeds and its output, read as coefficients,
+    takes the value `inp[i]` at the node `ω_d^i`, for every input array -/
+theorem ntt_inv_interpolates {ω : Nat → F} (root : Nat → Option F) (d : Nat) (h : Roots ω d) (h2 : (2 : F) ≠ 0)
+    (outp inp : Array F) (s : F) (hs : s * (2 : F) ^ d = 1) (hd : d ≤ maxRoots) (hop : 2 ^ d ≤ outp.size)
+    (hr : RootsAvail root ω d) (hne : d = 0 → inp.size ≠ 0) :
+    ∃ c, nttInv root outp inp (2 ^ d) s = .ok c ∧ c.size = outp.size ∧
+      ∀ i, i < 2 ^ d → ∑ t ∈ range (2 ^ d), c.getD t 0 * (ω d ^ i) ^ t = inp.getD i 0 :=
+  nttInv_interpolates root d h h2 outp inp s hs hd hop hr hne
+
+/-- … and applied to the values of a polynomial of degree `< 2^d` it returns that polynomial's coefficients -/
+theorem ntt_inv_of_values {ω : Nat → F} (root : Nat → Option F) (d : Nat) (h : Roots ω d) (h2 : (2 : F) ≠ 0)
+    (outp inp : Array F) (s : F) (hs : s * (2 : F) ^ d = 1) (hd : d ≤ maxRoots) (hop : 2 ^ d ≤ outp.size)
+    (hr : RootsAvail root ω d) (hne : d = 0 → inp.size ≠ 0) (coef : Nat → F)
+    (hv : ∀ i, i < 2 ^ d → inp.getD i 0 = ∑ t ∈ range (2 ^ d), coef t * (ω d ^ i) ^ t) :
+    ∃ c, nttInv root outp inp (2 ^ d) s = .ok c ∧ c.size = outp.size ∧ ∀ t, t < 2 ^ d → c.getD t 0 = coef t :=
+  nttInv_of_values root d h h2 outp inp s hs hd hop hr hne coef hv
+
+/-- the forward transform of the inverse transform is the identity -/
+theorem ntt_of_ntt_inv {ω : Nat → F} (root : Nat → Option F) (d : Nat) (h : Roots ω d) (h2 : (2 : F) ≠ 0)
+    (outp inp : Array F) (s : F) (hs : s * (2 : F) ^ d = 1) (hd : d ≤ maxRoots) (hop : 2 ^ d ≤ outp.size)
+    (hr : RootsAvail root ω d) (hne : d = 0 → inp.size ≠ 0) :
+    ∃ c, nttInv root outp inp (2 ^ d) s = .ok c ∧ c.size = outp.size ∧
+      ∀ (outLen : Nat) (outp' : Array F), 2 ^ d ≤ outLen → 2 ^ d ≤ outp'.size →
+        ∃ a, nttInternal root outLen outp' c (2 ^ d) false = .ok a ∧ a.size = outp'.size ∧
+          ∀ i, i < 2 ^ d → a.getD i 0 = inp.getD i 0 :=
+  ntt_of_nttInv root d h h2 outp inp s hs hd hop hr hne
+
+/-- the nodes of a domain are pairwise distinct -/
+theorem nodes_distinct {ω : Nat → F} {d : Nat} (h : Roots ω d) (h2 : (2 : F) ≠ 0) (i j : Nat)
+    (hi : i < 2 ^ d) (hj : j < 2 ^ d) (hij : ω d ^ i = ω d ^ j) : i = j :=
+  roots_distinct h h2 i j hi hj hij
+
+/-- `nth_root_powers(2^k)` is the table `ω_k^0, ω_k^1, …` -/
+theorem root_powers_table {ω : Nat → F} (root : Nat → Option F) (k : Nat) (h : Roots ω k)
+    (hr : RootsAvail root ω k) :
+    ∃ r, nthRootPowers root k = some r ∧ r.size = 2 ^ k ∧ ∀ j, j < 2 ^ k → r.getD j 0 = ω k ^ j :=
+  nthRootPowers_spec root k h hr
+
+/-- **Lagrange evaluation**: given the (zero-padded) values of a polynomial of degree `< 2^k` at the
+    nodes, `poly_eval_lagrange_batched` returns its value at `x` — for every `x`, nodes included -/
+theorem lagrange_eval_is_poly_eval {ω : Nat → F} (k : Nat) (h : Roots ω k) (h2 : (2 : F) ≠ 0)
+    (roots : Array F) (hsz : roots.size = 2 ^ k) (hroots : ∀ j, j < 2 ^ k → roots.getD j 0 = ω k ^ j)
+    (half : F) (hh : half * 2 = 1) (coef : Nat → F) (ys : Array F) (hys : ys.size ≤ 2 ^ k)
+    (hv : ∀ i, i < 2 ^ k → (if i < ys.size then ys.getD i 0 else 0) = ∑ t ∈ range (2 ^ k), coef t * (ω k ^ i) ^ t)
+    (x : F) :
+    polyEvalLagrange roots half k ys x = ∑ t ∈ range (2 ^ k), coef t * x ^ t :=
+  polyEvalLagrange_spec k h h2 roots hsz hroots half hh coef ys hys hv x
+
+/-- **extension**: `extend_values_to_power_of_2` fills every further node with the value of the
+    polynomial of degree `< m` that the first `m` values determine (any pairwise distinct nodes) -/
+theorem extend_values_is_poly (r poly : Array F) (m : Nat) (hmn : m ≤ poly.size)
+    (hinj : ∀ i j, i < poly.size → j < poly.size → r.getD i 0 = r.getD j 0 → i = j)
+    (coef : Nat → F)
+    (hv : ∀ i, i < m → poly.getD i 0 = ∑ t ∈ range m, coef t * (r.getD i 0) ^ t) :
+    (extendValues r poly m).size = poly.size ∧
+    ∀ i, i < poly.size → (extendValues r poly m).getD i 0 = ∑ t ∈ range m, coef t * (r.getD i 0) ^ t :=
+  extendValues_spec' r poly m hmn hinj coef hv
+
+/-- **doubling**: from the values on the `2^d` nodes to the values on the `2^(d+1)` nodes -/
+theorem double_evaluations_is_poly {ω : Nat → F} (root : Nat → Option F) (d : Nat) (h : Roots ω (d + 1))
+    (h2 : (2 : F) ≠ 0) (hr : RootsAvail root ω (d + 1)) (hd : d + 1 ≤ maxRoots)
+    (evals : Array F) (hsz : evals.size = 2 ^ d) (s : F) (hs : s * (2 : F) ^ d = 1) (coef : Nat → F)
+    (hv : ∀ i, i < 2 ^ d → evals.getD i 0 = ∑ t ∈ range (2 ^ d), coef t * (ω d ^ i) ^ t) :
+    ∃ out, doubleEvaluations root (2 * 2 ^ d) evals s = .ok out ∧ out.size = 2 ^ (d + 1) ∧
+      ∀ k, k < 2 ^ (d + 1) → out.getD k 0 = ∑ t ∈ range (2 ^ d), coef t * (ω (d + 1) ^ k) ^ t :=
+  doubleEvaluations_spec root d h h2 hr hd evals hsz s hs coef hv
+
+/-- **multiplication in the Lagrange basis**: the output holds the product polynomial's values on the
+    doubled domain -/
+theorem lagrange_mul_is_product {ω : Nat → F} (root : Nat → Option F) (d : Nat) (h : Roots ω (d + 1))
+    (h2 : (2 : F) ≠ 0) (hr : RootsAvail root ω (d + 1)) (hd : d + 1 ≤ maxRoots)
+    (p q : Array F) (hp : p.size = 2 ^ d) (hq : q.size = 2 ^ d) (s : F) (hs : s * (2 : F) ^ d = 1)
+    (cp cq : Nat → F)
+    (hvp : ∀ i, i < 2 ^ d → p.getD i 0 = ∑ t ∈ range (2 ^ d), cp t * (ω d ^ i) ^ t)
+    (hvq : ∀ i, i < 2 ^ d → q.getD i 0 = ∑ t ∈ range (2 ^ d), cq t * (ω d ^ i) ^ t) :
+    ∃ out, polyMulLagrange root (2 * 2 ^ d) p q s = .ok out ∧ out.size = 2 ^ (d + 1) ∧
+      ∀ k, k < 2 ^ (d + 1) → out.getD k 0 =
+        (∑ t ∈ range (2 ^ d), cp t * (ω (d + 1) ^ k) ^ t) * (∑ t ∈ range (2 ^ d), cq t * (ω (d + 1) ^ k) ^ t) :=
+  polyMulLagrange_spec root d h h2 hr hd p q hp hq s hs cp cq hvp hvq
+
+end lagrange
 
 end Props.C10
